@@ -386,6 +386,12 @@ func (n *Normer) Norm(v ssa.Value) Poly {
 			if st := resultSpillStore(x); st != nil {
 				return n.Norm(st.Val) // `return v` in a function with defers: v is parked in a local and read back
 			}
+			if st := reachingStore(x); st != nil {
+				return n.Norm(st.Val) // a local that is built and then patched: the store this read sees
+			}
+			if p, ok := n.localTableLoad(x); ok {
+				return p // element of a local literal table at a known position
+			}
 			return n.normLoad(x.X)
 		case token.NOT:
 			return pAtom("Not(" + n.Norm(x.X).asAtom() + ")")
@@ -421,6 +427,15 @@ func (n *Normer) Norm(v ssa.Value) Poly {
 		st := x.X.Type().Underlying().(*types.Struct)
 		return n.atom(n.Norm(x.X).asAtom() + "." + fname(st.Field(x.Field)))
 	case *ssa.Index:
+		if ld, isLd := x.X.(*ssa.UnOp); isLd && ld.Op == token.MUL {
+			if alloc, isAlloc := ld.X.(*ssa.Alloc); isAlloc {
+				if k, isK := n.Norm(x.Index).IsConst(); isK {
+					if st := tableCellStore(alloc, k, nil, ld, 0); st != nil {
+						return n.Norm(st.Val) // element of a local literal table at a known position
+					}
+				}
+			}
+		}
 		if isStringType(x.X.Type()) {
 			// a byte of a string reads like an element of the byte slice made from it
 			return n.atom(n.Norm(x.X).asAtom() + "[" + n.Norm(x.Index).String() + "]")
@@ -530,7 +545,19 @@ func (n *Normer) normConvert(x ssa.Value, to types.Type) Poly {
 		if k, ok := n.Norm(x).IsConst(); ok {
 			return pConst(k)
 		}
-		return pAtom("Conv:" + typeShort(to) + "(" + n.Norm(x).String() + ")")
+		inner := n.Norm(x).String()
+		// masking with all the bits the narrower type keeps changes nothing: byte(v & 0xFF) = byte(v)
+		if tb < 64 && strings.HasPrefix(inner, "And(") && strings.HasSuffix(inner, ")") {
+			mask := strconv.FormatInt(int64(1)<<uint(tb)-1, 10)
+			if args := splitTopLevel(inner[4 : len(inner)-1]); len(args) == 2 {
+				if args[0] == mask {
+					inner = args[1]
+				} else if args[1] == mask {
+					inner = args[0]
+				}
+			}
+		}
+		return pAtom("Conv:" + typeShort(to) + "(" + inner + ")")
 	case isIntType(from) && isFloatType(to):
 		return pAtom("F(" + n.Norm(x).String() + ")")
 	case isFloatType(from) && isIntType(to):
@@ -664,6 +691,10 @@ func (n *Normer) addrPath(v ssa.Value) (root string, path string, ok bool) {
 // a method value whose receiver was built by the function under analysis). Set by a rule for the
 // duration of its analysis.
 var ptrAlias = map[ssa.Value]*ssa.Alloc{}
+
+// valAlias: struct-typed parameters known to hold a given struct value (the value receiver of a method
+// value whose receiver was built by the function under analysis).
+var valAlias = map[ssa.Value]ssa.Value{}
 
 func rootAlloc(v ssa.Value) (*ssa.Alloc, []int, bool) {
 	switch x := v.(type) {
@@ -839,6 +870,16 @@ func (n *Normer) normCall(x *ssa.Call) Poly {
 			}
 			if lv, ok := n.sliceLen[args[0]]; ok {
 				return n.Norm(lv)
+			}
+			// len(arr[:]) of a local array (a slice literal) is the array's length
+			if sl, ok := cc.Args[0].(*ssa.Slice); ok && sl.Low == nil && sl.High == nil && sl.Max == nil {
+				if _, bound := n.Bind[cc.Args[0]]; !bound {
+					if pt, ok := sl.X.Type().Underlying().(*types.Pointer); ok {
+						if at, ok := pt.Elem().Underlying().(*types.Array); ok {
+							return pConst(at.Len())
+						}
+					}
+				}
 			}
 			// len(x[lo:hi]) = hi - lo (the slice expression panics otherwise)
 			_, named := n.Bind[cc.Args[0]]
@@ -1231,10 +1272,15 @@ func (p *Prog) deepEach(root *ssa.Function, maxDepth int, f func(s DeepSite)) {
 				return
 			}
 			cal := ci.Common().StaticCallee()
-			if cal == nil || !isRepoFunc(cal) || cal.Blocks == nil || cal.Pkg != root.Pkg || cal.Parent() != nil {
+			if cal == nil || !isRepoFunc(cal) || cal.Blocks == nil {
 				return
 			}
-			if cal.Object() == nil || cal.Object().Exported() {
+			if cal.Parent() != nil {
+				// a function literal of this very function, called directly
+				if cal.Parent() != fn {
+					return
+				}
+			} else if cal.Pkg != root.Pkg || cal.Object() == nil || cal.Object().Exported() {
 				return
 			}
 			for _, pc := range path {
@@ -1405,7 +1451,32 @@ func (n *Normer) fieldOf(v ssa.Value, f int, depth int) (Poly, bool) {
 			}
 		}
 		return nil, false
+	case *ssa.Index:
+		// element of a local literal table (copied as a value) at a known position
+		ld, isLd := x.X.(*ssa.UnOp)
+		if !isLd || ld.Op != token.MUL {
+			return nil, false
+		}
+		alloc, isAlloc := ld.X.(*ssa.Alloc)
+		if !isAlloc {
+			return nil, false
+		}
+		k, isK := n.Norm(x.Index).IsConst()
+		if !isK {
+			return nil, false
+		}
+		if st := tableCellStore(alloc, k, []int{f}, ld, 0); st != nil {
+			return n.Norm(st.Val), true // the literal writes the element field by field
+		}
+		st := tableCellStore(alloc, k, nil, ld, 0)
+		if st != nil {
+			return n.fieldOf(st.Val, f, depth+1)
+		}
+		return nil, false
 	case *ssa.Parameter:
+		if v, ok := valAlias[x]; ok {
+			return n.fieldOf(v, f, depth+1)
+		}
 		arg, ctx, ok := n.paramArg(x)
 		if !ok {
 			return nil, false
